@@ -553,6 +553,16 @@ func runReceiver(sc *Scenario, v Variant, pass string, input []byte, prog []Call
 	var rm *message.Message
 	var got [][]byte
 	var cur []byte
+	// What the application holds: every slice a receive call returned is kept
+	// exactly as returned (no copy) and compared with the model only after the
+	// whole behaviour has been read - later reads must not change earlier results.
+	type heldSlice struct {
+		call string
+		msg  int
+		data []byte
+		exp  []byte
+	}
+	var held []heldSlice
 	for _, c := range prog {
 		stt.RealCalls++
 		exp, serr := segBytes(msgs, c.Ret)
@@ -571,7 +581,8 @@ func runReceiver(sc *Scenario, v Variant, pass string, input []byte, prog []Call
 			if !bytes.Equal(data, exp) {
 				return mk("DeliveredIsPrefixOfSent", c.A, "content", "ReceiveCompleteMessage returned other bytes than were sent: "+diffAt(data, exp))
 			}
-			got = append(got, data)
+			held = append(held, heldSlice{c.A, len(got), data, exp})
+			got = append(got, nil)
 		case "StartRead":
 			if err := rs.StartMessageRead(bg); err != nil {
 				return rejected(c, err)
@@ -604,7 +615,7 @@ func runReceiver(sc *Scenario, v Variant, pass string, input []byte, prog []Call
 			if !bytes.Equal(data, exp) {
 				return mk("DeliveredIsPrefixOfSent", c.A, "content", fmt.Sprintf("GetBytes(%d): %s", c.K, diffAt(data, exp)))
 			}
-			cur = append(cur, data...)
+			held = append(held, heldSlice{c.A, len(got), data, exp}) // kept as returned, no copy
 		case "GetRemaining":
 			data, err := rm.GetRemainingBytes(bg)
 			if err != nil {
@@ -613,22 +624,11 @@ func runReceiver(sc *Scenario, v Variant, pass string, input []byte, prog []Call
 			if !bytes.Equal(data, exp) {
 				return mk("DeliveredIsPrefixOfSent", c.A, "content", "GetRemainingBytes: "+diffAt(data, exp))
 			}
-			cur = append(cur, data...)
-			got = append(got, cur)
-			cur = nil
+			held = append(held, heldSlice{c.A, len(got), data, exp})
+			got = append(got, nil) // assembled from the retained slices after the whole behaviour
 		default:
 			return &Diff{Broken: true, Detail: "unknown receiver call " + c.A}
 		}
-	}
-	// boundaries: exactly the expected messages, in order
-	if len(got) != len(want) {
-		return mk("DeliveredIsPrefixOfSent", "Receiver:"+sc.Rapi, "boundary", fmt.Sprintf("delivered %d messages, expected %d", len(got), len(want)))
-	}
-	for i := range got {
-		if !bytes.Equal(got[i], want[i]) {
-			return mk("DeliveredIsPrefixOfSent", "Receiver:"+sc.Rapi, "boundary", fmt.Sprintf("message %d: %s", i+1, diffAt(got[i], want[i])))
-		}
-		stt.MessagesChecked++
 	}
 	// NoSpuriousMessage: nothing more may be delivered
 	stt.RealCalls++
@@ -645,6 +645,24 @@ func runReceiver(sc *Scenario, v Variant, pass string, input []byte, prog []Call
 		if data, err := message.NewMessageFromStream(rs).GetRemainingBytes(bg); err == nil {
 			return mk("NoSpuriousMessage", "GetRemaining", "extra", fmt.Sprintf("a further message of %d bytes was delivered that the sender never finished", len(data)))
 		}
+	}
+	// the application still holds what it was given
+	for _, h := range held {
+		if !bytes.Equal(h.data, h.exp) {
+			return mk("DeliveredIsPrefixOfSent", h.call, "changed-after-later-read",
+				fmt.Sprintf("a value of message %d returned by %s was correct when returned and differs after later reads on the same stream: %s", h.msg+1, h.call, diffAt(h.data, h.exp)))
+		}
+		got[h.msg] = append(got[h.msg], h.data...)
+	}
+	// boundaries: exactly the expected messages, in order
+	if len(got) != len(want) {
+		return mk("DeliveredIsPrefixOfSent", "Receiver:"+sc.Rapi, "boundary", fmt.Sprintf("delivered %d messages, expected %d", len(got), len(want)))
+	}
+	for i := range got {
+		if !bytes.Equal(got[i], want[i]) {
+			return mk("DeliveredIsPrefixOfSent", "Receiver:"+sc.Rapi, "boundary", fmt.Sprintf("message %d: %s", i+1, diffAt(got[i], want[i])))
+		}
+		stt.MessagesChecked++
 	}
 	return nil
 }
